@@ -3,7 +3,9 @@ Hand model of pdfminer/ccitt.py (import-free, executable):
   BitParser.add / _parse_bit, CCITTG4Parser (_parse_mode, _parse_horiz1/2, _do_vertical, _do_pass,
   _do_horizontal, _flush_line, _reset_line, reset, feedbytes incl. ByteSkip and EOFB),
   CCITTFaxDecoder.output_line (packing, `reversed`), ccittfaxdecode (K, Columns, EncodedByteAlign,
-  BlackIs1).  The code tables are `Gen/CcittTables.lean`, regenerated from the source on every run.
+  BlackIs1).  The code tables are `Gen/CcittTables.lean`; loop conditions, offsets, thresholds, bit
+masks, defaults and the `_parse_mode` dispatch are `Gen/CcittCode.lean` — both regenerated from the
+source on every run.
 
 Conventions: a pixel / colour is a `Bool`, `true` = 1 = white (the parser's convention).
 `Err.unmodelled` marks what is outside this model: `Columns ≤ 0`, and branches that no reachable state
@@ -11,6 +13,7 @@ takes (a run-length table handing out a mode symbol, ...).
 -/
 import PdfVerif.Model.Prelude
 import PdfVerif.Gen.CcittTables
+import PdfVerif.Gen.CcittCode
 import PdfVerif.Model.CcittBits
 
 namespace PdfVerif.Ccitt
@@ -60,6 +63,7 @@ def runTrie (color : Bool) : Trie := if color then whiteTrie else blackTrie
 inductive Err where
   | invalidData          -- CCITTG4Parser.InvalidData
   | valueError           -- PDFValueError (K ≠ -1)
+  | notImplemented       -- PDFNotImplementedError (PDFStream._decode: unsupported filter)
   | unmodelled           -- degenerate width / unreachable branch: outside this model
   deriving DecidableEq, Repr
 
@@ -94,69 +98,89 @@ def fill (l : List Bool) (lo hi : Nat) (c : Bool) : List Bool :=
 
 /-! ### output_line -/
 
-/-- `CCITTFaxDecoder.output_line` -/
+/-- One output byte: the masks (`Gen.CcittCode.outMasks`) of the set bits among `bits[8j .. 8j+7]`. -/
+def outByte (bits : List Bool) (j : Nat) : UInt8 :=
+  UInt8.ofNat (((List.range 8).map fun i =>
+    if bits.getD (8 * j + i) false then CcittCode.outMasks.getD i 0 else 0).sum)
+
+/-- `CCITTFaxDecoder.output_line`: `(len(bits) + 7) // 8` zero bytes, polarity flipped when
+`reversed`, then `arr[i // 8] += masks[i % 8]` for every set bit. -/
 def packLine (reversed : Bool) (bits : List Bool) : List UInt8 :=
-  packBits (if reversed then bits.map (!·) else bits)
+  let bits := if reversed then bits.map CcittCode.outFlip else bits
+  (List.range (CcittCode.outLen (bits.length : Int)).toNat).map (outByte bits)
 
 /-! ### line bookkeeping -/
 
 /-- `_reset_line` -/
 def resetLine (st : St) : St :=
-  { st with refline := st.curline, curline := List.replicate st.width true, curpos := -1, color := true }
+  { st with refline := st.curline, curline := List.replicate st.width CcittCode.blankPixel,
+            curpos := CcittCode.resetCurpos, color := CcittCode.resetColor }
 
 /-- `_flush_line`; the flag says that `ByteSkip` was raised. -/
 def flushLine (st : St) : St × Bool :=
-  if (st.width : Int) ≤ st.curpos then
+  if CcittCode.flushCond (st.width : Int) st.curpos then
     (resetLine { st with buf := st.buf ++ packLine st.reversed st.curline }, st.bytealign)
   else (st, false)
 
-/-- The `while 1:` scans of `_do_vertical` / `_do_pass`: starting at position `x` (with `prev` the
-reference pixel left of it, white before the line) advance until the end of the line or until
-`cond prev current` holds. -/
-def scan (cond : Bool → Bool → Bool) : Bool → List Bool → Nat → Nat
+/-- The `while 1:` scans of `_do_vertical` / `_do_pass` from position `x` on (`prev` = the reference
+pixel left of it, `none` at column 0 where the source has its own test `cond0`): advance until the
+end of the line or until the (regenerated) condition holds. -/
+def scanFrom (cond0 : Bool → Bool → Bool) (cond : Bool → Bool → Bool → Bool) (color : Bool) :
+    Option Bool → List Bool → Nat → Nat
   | _, [], x => x
-  | prev, r :: rs, x => if cond prev r then x else scan cond r rs (x + 1)
+  | none, r :: rs, x => if cond0 r color then x else scanFrom cond0 cond color (some r) rs (x + 1)
+  | some p, r :: rs, x => if cond p r color then x else scanFrom cond0 cond color (some r) rs (x + 1)
 
-/-- The pixel left of position `x` (`x == 0` is special-cased in the source as a white pixel). -/
-def prevPix (ref : List Bool) (x : Nat) : Bool := if x = 0 then true else ref.getD (x - 1) true
+/-- The pixel left of position `x`, if there is a column left of it. -/
+def prevOpt (ref : List Bool) (x : Nat) : Option Bool :=
+  if x = 0 then none else some (ref.getD (x - 1) true)
 
-/-- first loop: `refline[x1-1] == color and refline[x1] != color` -/
+/-- first loop of `_do_vertical` -/
 def findB1 (ref : List Bool) (color : Bool) (x1 : Nat) : Nat :=
-  scan (fun p r => p == color && r != color) (prevPix ref x1) (ref.drop x1) x1
+  scanFrom CcittCode.vertCond0 CcittCode.vertCond color (prevOpt ref x1) (ref.drop x1) x1
 
-/-- second loop of `_do_pass`: `refline[x1-1] != color and refline[x1] == color` -/
+/-- first loop of `_do_pass` -/
+def findB1p (ref : List Bool) (color : Bool) (x1 : Nat) : Nat :=
+  scanFrom CcittCode.passB1Cond0 CcittCode.passB1Cond color (prevOpt ref x1) (ref.drop x1) x1
+
+/-- second loop of `_do_pass` -/
 def findB2 (ref : List Bool) (color : Bool) (x1 : Nat) : Nat :=
-  scan (fun p r => p != color && r == color) (prevPix ref x1) (ref.drop x1) x1
+  scanFrom CcittCode.passB2Cond0 CcittCode.passB2Cond color (prevOpt ref x1) (ref.drop x1) x1
 
 /-- `_do_vertical(dx)` -/
 def doVertical (st : St) (dx : Int) : St :=
-  let b1 := findB1 st.refline st.color (st.curpos + 1).toNat
-  let x1 : Int := (b1 : Int) + dx
-  let x0 : Int := max 0 st.curpos
-  let x1 : Int := max 0 (min (st.width : Int) x1)
+  let b1 := findB1 st.refline st.color (CcittCode.vertStart st.curpos).toNat
+  let x1 : Int := CcittCode.vertTarget (b1 : Int) dx
+  let x0 : Int := CcittCode.vertX0 st.curpos
+  let x1 : Int := CcittCode.vertClamp (st.width : Int) x1
   let cur :=
-    if x1 < x0 then fill st.curline x1.toNat x0.toNat st.color
-    else if x0 < x1 then fill st.curline x0.toNat x1.toNat st.color
+    if CcittCode.vertBackward x1 x0 then fill st.curline x1.toNat x0.toNat st.color
+    else if CcittCode.vertForward x0 x1 then fill st.curline x0.toNat x1.toNat st.color
     else st.curline
-  { st with curline := cur, curpos := x1, color := !st.color }
+  { st with curline := cur, curpos := x1, color := CcittCode.vertNewColor st.color }
 
 /-- `_do_pass()`; `range(self._curpos, x1)` starts at -1 on a fresh line, and `curline[-1]` is the
 last pixel. -/
 def doPass (st : St) : St :=
-  let b1 := findB1 st.refline st.color (st.curpos + 1).toNat
+  let b1 := findB1p st.refline st.color (CcittCode.passStart st.curpos).toNat
   let b2 := findB2 st.refline st.color b1
   let l0 := if st.curpos < 0 then fill st.curline (st.width - 1) st.width st.color else st.curline
   { st with curline := fill l0 st.curpos.toNat b2 st.color, curpos := (b2 : Int) }
 
+/-- Where a `for _ in range(n): if <stop>: break; …; x += 1` loop of `_do_horizontal` ends. -/
+def runEnd (stop : Int → Int → Bool) (len : Int) : Nat → Int → Int
+  | 0, x => x
+  | n + 1, x => if stop len x then x else runEnd stop len n (x + 1)
+
 /-- `_do_horizontal(n1, n2)` -/
 def doHorizontal (st : St) (n1 n2 : Nat) : St :=
-  let x := (max 0 st.curpos).toNat
-  let len := st.curline.length
-  let e1 := min (x + n1) (max x len)
-  let l1 := fill st.curline x e1 st.color
-  let e2 := min (e1 + n2) (max e1 len)
-  let l2 := fill l1 e1 e2 (!st.color)
-  { st with curline := l2, curpos := (e2 : Int) }
+  let x : Int := if CcittCode.horizNeg st.curpos then CcittCode.horizZero else st.curpos
+  let len : Int := (st.curline.length : Int)
+  let e1 := runEnd CcittCode.horizStop1 len n1 x
+  let l1 := fill st.curline x.toNat e1.toNat (CcittCode.horizColor1 st.color)
+  let e2 := runEnd CcittCode.horizStop2 len n2 e1
+  let l2 := fill l1 e1.toNat e2.toNat (CcittCode.horizColor2 st.color)
+  { st with curline := l2, curpos := e2 }
 
 /-! ### the accept callbacks -/
 
@@ -164,23 +188,34 @@ def afterFlush (st : St) : St × Sig :=
   let (st', skip) := flushLine st
   ({ st' with acc := .mode, node := modeTrie }, if skip then .byteSkip else .cont)
 
+/-- Which branch of the `if/elif` chain of `_parse_mode` is taken (regenerated dispatch: the string
+tests in source order, then `isinstance(mode, int)`, then `else`). -/
+def modeAction : Option Sym → CcittCode.ModeAction
+  | some (.mode (.v _)) => CcittCode.modeIntAction
+  | some (.run _) => CcittCode.modeIntAction
+  | some (.mode m) => (CcittCode.modeDispatch.lookup m).getD CcittCode.modeElseAction
+  | _ => CcittCode.modeElseAction
+
 /-- `_parse_mode(mode)`; `none` is Python's `None` (an unassigned code word). -/
-def parseMode (st : St) : Option Sym → Except Err (St × Sig)
-  | some (.mode .p) => .ok (afterFlush (doPass st))
-  | some (.mode .h) =>
-    .ok ({ st with n1 := 0, acc := .horiz1, node := runTrie st.color }, .cont)
-  | some (.mode .u) => .ok ({ st with acc := .unc, node := uncTrie }, .cont)
-  | some (.mode .e) => .ok (st, .eofb)
-  | some (.mode (.v d)) => .ok (afterFlush (doVertical st d))
-  | some (.run n) => .ok (afterFlush (doVertical st (n : Int)))    -- isinstance(mode, int)
-  | _ => .error .invalidData
+def parseMode (st : St) (v : Option Sym) : Except Err (St × Sig) :=
+  match modeAction v with
+  | .pass => .ok (afterFlush (doPass st))
+  | .horiz => .ok ({ st with n1 := 0, acc := .horiz1, node := runTrie st.color }, .cont)
+  | .unc => .ok ({ st with acc := .unc, node := uncTrie }, .cont)
+  | .eofb => .ok (st, .eofb)
+  | .vertical =>
+    match v with
+    | some (.mode (.v d)) => .ok (afterFlush (doVertical st d))
+    | some (.run n) => .ok (afterFlush (doVertical st (n : Int)))
+    | _ => .error .unmodelled       -- `_do_vertical` on a string
+  | .invalid => .error .invalidData
 
 /-- `_parse_horiz1(n)` -/
 def parseHoriz1 (st : St) : Option Sym → Except Err (St × Sig)
   | none => .error .invalidData
   | some (.run n) =>
-    if n < 64 then
-      let c := !st.color
+    if CcittCode.horiz1Term (n : Int) then
+      let c := CcittCode.horiz1Flip st.color
       .ok ({ st with n1 := st.n1 + n, n2 := 0, color := c, acc := .horiz2, node := runTrie c }, .cont)
     else
       .ok ({ st with n1 := st.n1 + n, node := runTrie st.color }, .cont)
@@ -190,8 +225,8 @@ def parseHoriz1 (st : St) : Option Sym → Except Err (St × Sig)
 def parseHoriz2 (st : St) : Option Sym → Except Err (St × Sig)
   | none => .error .invalidData
   | some (.run n) =>
-    if n < 64 then
-      let st1 := { st with n2 := st.n2 + n, color := !st.color, acc := .mode }
+    if CcittCode.horiz2Term (n : Int) then
+      let st1 := { st with n2 := st.n2 + n, color := CcittCode.horiz2Flip st.color, acc := .mode }
       .ok (afterFlush (doHorizontal st1 st1.n1 st1.n2))
     else
       .ok ({ st with n2 := st.n2 + n, node := runTrie st.color }, .cont)
@@ -243,6 +278,10 @@ def stepBit (st : St) (b : Bool) : Except Err (St × Sig) :=
 
 /-! ### feedbytes -/
 
+/-- `byte & m` for the masks of `feedbytes` (`Gen.CcittCode.feedMasks`), in order -/
+def bitsOfByte (b : UInt8) : List Bool :=
+  CcittCode.feedMasks.map fun m => Nat.land b.toNat m != 0
+
 /-- The inner `for m in (128, …, 1)` loop of `CCITTG4Parser.feedbytes`, left by an exception. -/
 def feedBits (st : St) : List Bool → Except Err (St × Sig)
   | [] => .ok (st, .cont)
@@ -264,16 +303,17 @@ def feedBytes (st : St) : List UInt8 → Except Err St
 /-- `CCITTFaxDecoder(width, bytealign, reversed)` after `reset()` -/
 def initSt (width : Nat) (bytealign reversed : Bool) : St :=
   { width := width, bytealign := bytealign, reversed := reversed,
-    refline := List.replicate width true, curline := List.replicate width true,
-    curpos := -1, color := true, n1 := 0, n2 := 0, acc := .mode, node := modeTrie, buf := [] }
+    refline := List.replicate width true, curline := List.replicate width CcittCode.blankPixel,
+    curpos := CcittCode.resetCurpos, color := CcittCode.resetColor,
+    n1 := 0, n2 := 0, acc := .mode, node := modeTrie, buf := [] }
 
 /-- `ccittfaxdecode(data, params)` with `params = {K, Columns, EncodedByteAlign, BlackIs1}`;
 `columns = none` is an absent key: `params.get("Columns", 1728)` (the ISO 32000-1 default, after the
 fix "CCITTFaxDecode Columns defaults to 1728"). -/
 def ccittfaxdecode (K : Option Int) (columns : Option Int) (bytealign reversed : Bool)
     (data : List UInt8) : Except Err (List UInt8) :=
-  if K ≠ some (-1) then .error .valueError else
-  let c : Int := columns.getD 1728
+  if K ≠ some CcittCode.kGroup4 then .error .valueError else
+  let c : Int := columns.getD CcittCode.columnsDefault
   if c ≤ 0 then .error .unmodelled else
   match feedBytes (initSt c.toNat bytealign reversed) data with
   | .error e => .error e
